@@ -101,6 +101,12 @@ def run(ctx):
             continue      # a bare AffineTransform makes no promise about NaN rows
         exprs.append('map (fun r => match r with Some v => Some (qout (vx v), qout (vy v), qout (vz v)) | None => None end) (seq_xform %s %s)' % (fs, rows))
         followups.append(('seq', desc, out))
+        # a negated SEQUENCE undoes the sequence (members inverted in reverse order)
+        if seq is not None and k > 1:
+            stn, backs = guarded(lambda: (-seq).xform(seq.xform(pts)))
+            ctx.count('negated-sequence')
+            if stn != 'ok' or np.abs(np.asarray(backs, dtype=float) - pts).max() > 1e-8 * max(1.0, np.abs(pts).max()):
+                ctx.violation('negated transform sequence does not undo the sequence', desc, backs if stn != 'ok' else dict(back=np.asarray(backs).tolist(), points=pts.tolist()))
         # negation is the exact inverse
         M, b = mats[0]
         T = ts[0]
